@@ -87,19 +87,66 @@ def _run(ev, jl, k, p, **kw):
 # event kinds (base-7 digits, first event = lowest digit): 0 input arrives, 1 PRE-PREPARE, 2 PREPARE, 3 COMMIT, 4 ROUND-CHANGE, 5 DECIDED, 6 timer
 _RUN_Q_C02 = [_run(8, 0, 2, 2), _run(113, 0, 3, 2), _run(34, 0, 2, 2), _run(7, 0, 2, 1)]          # PP,PP | PP,P,P | T,RC | I,PP
 _RUN_Q_C03 = [_run(40, 27, 2, 1), _run(171, 0, 3, 2)]                                                # D,D (3 justifications each) | C,C,C
-_RUN_T = [_run(799, 0, 4, 2), _run(1886, 3 * 512, 4, 2), _run(5 + 3 * 7 + 3 * 49 + 3 * 343, 3, 4, 2), _run(6 + 4 * 7 + 4 * 49 + 4 * 343, 0, 4, 2),
-          _run(1 + 6 * 7 + 1 * 49, 6 * 64, 3, 2), _run(2 + 2 * 7 + 2 * 49 + 1 * 343, 0, 4, 2), _run(0 + 6 * 7 + 4 * 49, 0, 3, 1)]
-CHECKS["C02"]["quick"] = CHECKS["C02"]["quick"] + _RUN_Q_C02
-CHECKS["C02"]["thorough"] = CHECKS["C02"]["thorough"] + _RUN_Q_C02 + _RUN_Q_C03 + _RUN_T
+# 4-event sequences (thorough)
+_RUN_PPPP = _run(1 + 2 * 7 + 2 * 49 + 2 * 343, 0, 4, 2)                       # PP,P,P,P
+_RUN_CCCD = _run(3 + 3 * 7 + 3 * 49 + 5 * 343, 3 * 512, 4, 2)                 # C,C,C,D (3 justifications)
+_RUN_DCCC = _run(5 + 3 * 7 + 3 * 49 + 3 * 343, 3, 4, 2, case_timeout_s=9000)  # D(3 justifications),C,C,C
+_RUN_TRRR = _run(6 + 4 * 7 + 4 * 49 + 4 * 343, 0, 4, 2)                       # T,RC,RC,RC (process 2 leads round 2)
+_RUN_PTP = _run(1 + 6 * 7 + 1 * 49, 6 * 64, 3, 2)                             # PP,T,PP (6 justifications)
+_RUN_PPPX = _run(2 + 2 * 7 + 2 * 49 + 1 * 343, 0, 4, 2)                       # P,P,P,PP
+_RUN_ITR = _run(0 + 6 * 7 + 4 * 49, 0, 3, 1)                                  # I,T,RC
+_RUN_RR = _run(4 + 4 * 7, 0, 2, 2)                                            # RC,RC (f+1 jump)
+_RUN_TT = _run(6 + 6 * 7, 0, 2, 2)                                            # T,T
+# n=6: a ROUND-CHANGE carrying 4 nested PREPAREs, a fifth PREPARE directly, then the timer: the process prepares with MORE
+# than a quorum of PREPAREs and must still send a ROUND-CHANGE every honest receiver accepts (L12)
+_RUN_N6 = {"pkg": _QB, "harness": "VerifRun", "params": {"n": 6, "k": 3, "p": 2, "ev": 4 + 2 * 7 + 6 * 49, "jl": 4}, "prune": 1000, "timeout_ms": 600000, "case_timeout_s": 7000}
+_RUN_T = [_RUN_PPPP, _RUN_CCCD, _RUN_DCCC, _RUN_TRRR, _RUN_PTP, _RUN_PPPX, _RUN_ITR]
+
+_FN_Q = list(CHECKS["C02"]["quick"])
+_FN_T = list(CHECKS["C02"]["thorough"])
+CHECKS["C02"]["quick"] = _FN_Q + _RUN_Q_C02
+CHECKS["C02"]["thorough"] = _FN_T + _RUN_Q_C02 + [_RUN_PPPP, _RUN_PTP, _RUN_PPPX, _RUN_ITR, _RUN_TRRR]
 CHECKS["C02"]["bounds"] = dict(CHECKS["C02"]["bounds"])
-CHECKS["C02"]["bounds"]["quick"] += "; Run-level: the real Run loop of one honest process (n=4) fed the event sequences PRE-PREPARE,PRE-PREPARE | PRE-PREPARE,PREPARE,PREPARE | timer,ROUND-CHANGE | input,PRE-PREPARE with every message field symbolic (sources other than the process itself), obligations L1-L5, L7, L10, L11 asserted on the broadcast/decision log"
-CHECKS["C02"]["bounds"]["thorough"] += "; Run-level sequences of 4 events (PP,P,P,P | C,C,C,D | D,C,C,C | T,RC,RC,RC | PP,T,PP(6 justifications) | P,P,P,PP | I,T,RC)"
+CHECKS["C02"]["bounds"]["quick"] += "; Run-level: the real Run loop of one honest process (n=4) fed the event sequences PRE-PREPARE,PRE-PREPARE | PRE-PREPARE,PREPARE,PREPARE | timer,ROUND-CHANGE | input,PRE-PREPARE with every message field symbolic (sources other than the process itself), obligations L1-L5, L7, L10-L12 asserted on the broadcast/decision log"
+CHECKS["C02"]["bounds"]["thorough"] += "; Run-level sequences of 4 events (PP,P,P,P | T,RC,RC,RC | PP,T,PP(6 justifications) | P,P,P,PP | I,T,RC)"
+
+# C03 (validity/integrity of decisions): the DECIDED / COMMIT side
+def _only(cases, harnesses, typ=None):
+    out = []
+    for g in cases:
+        if g["harness"] not in harnesses:
+            continue
+        if typ is not None and g["harness"] == "VerifClassify":
+            t = g["params"].get("typ")
+            ts = [x for x in (t if isinstance(t, list) else [t]) if x in typ]
+            if not ts:
+                continue
+            g = dict(g); g["params"] = dict(g["params"]); g["params"]["typ"] = ts
+        out.append(g)
+    return out
+
 CHECKS["C03"] = dict(CHECKS["C02"])
-CHECKS["C03"]["quick"] = [g for g in CHECKS["C02"]["quick"] if g["harness"] != "VerifRun"] + _RUN_Q_C03
+CHECKS["C03"]["quick"] = _FN_Q + _RUN_Q_C03
+CHECKS["C03"]["thorough"] = _only(_FN_T, {"VerifQuorumArith", "VerifJustDecided", "VerifClassify"}, typ=[3, 5]) + _RUN_Q_C03 + [_RUN_CCCD, _RUN_DCCC, _RUN_PPPP]
 CHECKS["C03"]["bounds"] = dict(CHECKS["C02"]["bounds"])
 CHECKS["C03"]["bounds"]["quick"] = CHECKS["C03"]["bounds"]["quick"].split("; Run-level")[0] + "; Run-level: the real Run loop (n=4) fed DECIDED,DECIDED (3 symbolic justifications each) and COMMIT,COMMIT,COMMIT with symbolic contents: at most one decision, backed by a quorum of distinct COMMIT(round,value), quorum certificate handed to Decide contains it"
+CHECKS["C03"]["bounds"]["thorough"] = "n in 3..7 for DECIDED justification and quorum arithmetic; classify on COMMIT / DECIDED buffers (n=4,5); Run-level sequences C,C,C,D | D,C,C,C | PP,P,P,P"
+
+# C04 (termination, partial): producer/verifier agreement and round-change progress rules, plus the round timers
+_TM = "./core/consensus/timer"
+def _timer(kinds, tys, rounds, durs):
+    return [{"pkg": _TM, "harness": "VerifC04Timer", "params": {"kind": kinds, "ty": tys, "round": rounds, "slotdur_ms": durs}}]
+
 CHECKS["C04"] = dict(CHECKS["C02"])
-CHECKS["C04"]["quick"] = [g for g in CHECKS["C02"]["quick"] if g["harness"] != "VerifRun"] + [_run(34, 0, 2, 2)]
+CHECKS["C04"]["quick"] = _FN_Q + [_run(34, 0, 2, 2), _RUN_RR] + _timer([1], [1, 2, 9, 10, 11, 12, 13], [1, 2], [12000]) + _timer([0, 2], [1, 2], [1, 3], [12000])
+CHECKS["C04"]["thorough"] = (_only(_FN_T, {"VerifQuorumArith", "VerifJustRoundChange", "VerifJustPrePrepare", "VerifClassify"}, typ=[1, 4])
+                             + [_run(34, 0, 2, 2), _RUN_RR, _RUN_TT, _RUN_TRRR, _RUN_ITR, _RUN_PTP, _RUN_N6]
+                             + _timer([1], list(range(1, 14)), [1, 2, 3, 8], [12000, 4000]) + _timer([0, 2], [1, 2, 9, 12], [1, 2, 3, 8], [12000]))
+CHECKS["C04"]["bounds"] = dict(CHECKS["C02"]["bounds"])
+CHECKS["C04"]["bounds"]["quick"] = CHECKS["C04"]["bounds"]["quick"].split("; Run-level")[0] + "; ROUND-CHANGE completeness: every justification made of a quorum OR MORE distinct-source PREPARE(pr,pv) (what Run attaches) is accepted; Run-level (n=4): timer,ROUND-CHANGE and ROUND-CHANGE,ROUND-CHANGE (f+1 jump) with symbolic contents, including L12 (every ROUND-CHANGE the real Run sends passes the real isJustifiedRoundChange); round timers: for 7 duty types, rounds 1-2, the eager double-linear timer's first deadline is exactly round seconds after the instant the SCHEDULER starts that duty type (core/scheduler slotOffsets), a second timer of the same round ends one round duration later; increasing and linear timers ask for their nominal duration (genesis, slot, call instants symbolic)"
+CHECKS["C04"]["bounds"]["thorough"] = "n in 3..7 for ROUND-CHANGE / PRE-PREPARE justification; classify on PRE-PREPARE / ROUND-CHANGE buffers; Run-level T,T | T,RC,RC,RC (the process leads round 2) | I,T,RC | PP,T,PP and the n=6 sequence ROUND-CHANGE(4 nested PREPAREs),PREPARE,timer in which the process prepares with more than a quorum; timers for all 13 duty types, rounds 1,2,3,8, slot durations 12s and 4s"
+CHECKS["C04"]["pkg"] = _QB
+CHECKS["C04"]["assumptions"] = list(_qbft_assumptions) + ["round timers: harness clock (Now symbolic, NewTimer records the requested duration); feature flags at their defaults (ProposalTimeout off)"]
 
 
 # ---------------------------------------------------------------------------------------------------------------
